@@ -167,6 +167,12 @@ def prepare(ctx):
             recs = gen_series(rnd, kind)
             series.append({"id": sid, "kind": kind, "records": recs})
             rows.append([(sid, d, v) for d, v in recs])
+    # series whose ids are SOIL ids of soil_ex3.csv other than the polygon file's SID (075): the series of a run is that of
+    # gwId if given, else of the soilId given on the batch line (input.go:62-69)
+    for sid in ("002", "041"):
+        recs = gen_series(rnd, "covers-run")
+        series.append({"id": sid, "kind": "soil-id", "records": recs})
+        rows.append([(sid, d, v) for d, v in recs])
     # the rows of the ids interleaved in the file (each id's own order kept)
     with open(os.path.join(ex, "project", "ex3", "gw_ex3.csv"), "a") as f:
         f.write("\n")
@@ -177,6 +183,7 @@ def prepare(ctx):
             live = [r for r in live if r]
     endy = 2005 if ctx.thorough else 1983
     lines = []
+    by_kind_early = {sr["kind"]: sr["id"] for sr in series}
 
     def add(base, fmt, extra, end_year, what):
         end = ("1231%d" if fmt == "EN" else "3112%d") % end_year
@@ -188,7 +195,13 @@ def prepare(ctx):
     ex3, zuc, rue = TRACE[0][0], TRACE[1][0], TRACE[2][0]
     add(ex3, "EN", "", endy, {"series": "shipped"})
     for sr in series:
+        if sr["kind"] == "soil-id":
+            continue
         add(ex3, "EN", "gwId=%s" % sr["id"], 1981, {"series": sr["kind"], "id": sr["id"], "records": sr["records"]})
+    # soilId on the line differs from the polygon file's SID: without gwId the series of the LINE's soil id, with gwId that one
+    for sid, gid in (("002", None), ("041", None), ("002", by_kind_early["covers-run"]), ("041", "002")):
+        add(ex3.replace("soilId=075", "soilId=%s" % sid), "EN", "gwId=%s" % gid if gid else "", 1981,
+            {"series": "soilId-differs-from-polygon-SID", "id": gid or sid, "soilId": sid, "gwId": gid})
     # run PAIRS in one session (batch mode; the pattern of examples/ex3_muencheberg_batch.txt): same soilId, different
     # gwId / with and without gwId, in both orders; each run must follow the file's series of ITS OWN id
     by_kind = {sr["kind"]: sr["id"] for sr in series}
@@ -357,6 +370,8 @@ def correspond(ctx):
             "a plateau (equal consecutive levels, then a change) inside a run": any(x["plateau_rows"] > 0 for x in cover),
             "duplicate dates": any(x["duplicate_dates"] > 0 for x in cover)}
     need["a single-record series"] = any(x["records"] == 1 for x in cover)
+    need["soilId on the line differs from the polygon SID, with and without gwId"] = \
+        {bool(plan[r_["line"]]["what"].get("gwId")) for r_ in runs if plan[r_["line"]]["what"].get("series") == "soilId-differs-from-polygon-SID" and r_["success"]} == {True, False}
     need["run pairs in one session"] = sum(1 for r_ in runs if r_.get("shared_session")) >= 8
     for ph in BOUNDARY_PHASES:
         for via in ("config.yml", "command line"):
